@@ -18,7 +18,9 @@ def run(ctx):
     if s["extra"]["name_strings"] < 2000 or s["extra"]["version_strings"] < 20000 or s["extra"]["macro_invocations"] < 1000:
         raise vlib.ToolError(f"too few cases: {s['extra']}")
     mv = s["extra"]["macro_verdicts"]
-    if not any("HARNESS" in m["signature"] for m in s["mismatches"]) and (mv.get("accepted", 0) == 0 or mv.get("rejected", 0) == 0):
+    # (vacuity guard - only meaningful when the macros agree with the specification: a tree on which every
+    #  literal is accepted, or every one rejected, shows up as disagreements instead)
+    if not s["mismatches"] and (mv.get("accepted", 0) == 0 or mv.get("rejected", 0) == 0):
         raise vlib.ToolError(f"vacuity guard: the literal macros were not exercised both ways: {mv}")
     for m in s["mismatches"]:
         if m["signature"].startswith("HARNESS"):
